@@ -126,10 +126,15 @@ package UTO311_L0x
 //@   ensures enforced: err == nil ==> len(b) == 64 && b[0] == 0x17 && b[1] == 0x43
 //@   ensures noalias:  err == nil ==> !sameblock(m.IP, b) && len(m.MAC) == 6 && !sameblock(m.MAC, b)
 
-// the debug hex dump: assumed to return a string and not to panic (formatting loops over fmt.Sprintf
-// are outside the engine's reach); only called to build debug output
+// the debug hex dump: never panics, whatever the length of m (no functional statement about the text);
+// rows of 16 bytes, each printed as two groups of at most 8
 //@ func Dump
 //@   params m, prefix
 //@   returns s
-//@   trusted
 //@   ensures nothing: true
+//@   loop 1
+//@     invariant row: 0 <= ix
+//@   loop 2
+//@     invariant col: 0 <= i && i <= 8 && 0 <= ix && ix < len(m) && len(chunk) == len(m) - ix
+//@   loop 3
+//@     invariant col: 8 <= i && i <= 16 && 0 <= ix && ix < len(m) && len(chunk) == len(m) - ix
